@@ -188,6 +188,17 @@ def pageLevelStats (maxDef maxRep : Nat) (page : List (Entry (List Nat))) : Page
     repHist := pageHist maxRep (page.map (·.rep))
     unencoded := pageUnencoded (page.filterMap (·.val)) }
 
+/-- MIRROR column_buffer.go:92-111 `nullableColumnIndex.NullCount` / `NullPage`: the column index an in-memory
+    optional / repeated column chunk (Buffer, GenericBuffer) computes on the fly from the definition levels of its
+    single page. `slip = false` is the code (`countLevelsNotEqual(definitionLevels, maxDefinitionLevel)`);
+    `slip = true` is the variant that counts the entries at definition level 0 only, kept to show that the two
+    differ as soon as a null sits at an intermediate level (`bufferIndex_levelZero_wrong`). -/
+def bufferIndexNullCount (slip : Bool) (maxDef : Nat) (defs : List Nat) : Nat :=
+  if slip then countLevelsEqual defs 0 else countLevelsNotEqual defs maxDef
+
+def bufferIndexNullPage (slip : Bool) (maxDef : Nat) (defs : List Nat) : Bool :=
+  bufferIndexNullCount slip maxDef defs == defs.length
+
 theorem count_dfn_eq_present {α} (maxDef maxRep : Nat) : ∀ (page : List (Entry α)), (∀ e ∈ page, e.WF maxDef maxRep) →
     (page.map (·.dfn)).count maxDef = (page.filterMap (·.val)).length ∧
     (page.map (·.dfn)).count maxDef + page.countP (fun e => e.val.isNone) = page.length
